@@ -447,6 +447,56 @@ theorem reach_inv (hinj : Function.Injective C.hash) (evs : List (Ev Sig))
 
 end
 
+/-! ## Dedup entries persist; what an `ok` answer says about the table -/
+
+theorem step_dedup_mono (w : World Digest) (e : Ev Sig) (p : Peer) (k : Peer × Bytes) (v : Digest)
+    (h : dget (w.mem p).dedup k = some v) : dget ((step C E cfg w e).1.mem p).dedup k = some v := by
+  cases e with
+  | reg m id =>
+    show dget (upd w.mem m (register (w.mem m) id) p).dedup k = some v
+    by_cases hp : p = m
+    · rw [hp, upd_same]; rw [hp] at h; exact h
+    · rw [upd_other _ _ _ _ hp]; exact h
+  | cstart a id P => simp only [step]; split <;> exact h
+  | sigReq m q id P =>
+    rcases step_sigReq_cases C E cfg w m q id P with hw | ⟨m', _, hmono, _, hw⟩ <;> rw [hw]
+    · exact h
+    · show dget (upd w.mem m m' p).dedup k = some v
+      by_cases hp : p = m
+      · rw [hp, upd_same]; rw [hp] at h; exact hmono _ _ h
+      · rw [upd_other _ _ _ _ hp]; exact h
+  | msg m q id P sigs => simp only [step]; split <;> exact h
+  | foreign a hin => exact h
+
+theorem run_dedup_mono (w : World Digest) (evs : List (Ev Sig)) (p : Peer) (k : Peer × Bytes) (v : Digest)
+    (h : dget (w.mem p).dedup k = some v) : dget ((run C E cfg w evs).mem p).dedup k = some v := by
+  induction evs generalizing w with
+  | nil => exact h
+  | cons e es ih => exact ih _ (step_dedup_mono C E cfg w e p k v h)
+
+/-- a signature answer of `step` for a request means the entry is in the table afterwards; an `ok`
+answer on a table that already holds an entry means the entry is this very hash. -/
+theorem step_sigReq_ok (w : World Digest) (h q : Peer) (id : Bytes) (P : Payload) (s : Sig)
+    (hok : (step C E cfg w (.sigReq h q id P)).2 = .sig (.ok s)) :
+    dget ((step C E cfg w (.sigReq h q id P)).1.mem h).dedup (q, id)
+        = some (C.hash (encode (hinOf cfg.session id P))) ∧
+    ∀ d, dget (w.mem h).dedup (q, id) = some d → d = C.hash (encode (hinOf cfg.session id P)) := by
+  simp only [step] at hok ⊢
+  rcases onSigRequest_cases C E cfg h (w.mem h) q id P with ⟨r, hr, hne⟩ | ⟨hd, hr⟩ | ⟨hn, hr⟩
+  · rw [hr] at hok
+    cases r with
+    | ok s' => exact absurd rfl (hne s')
+    | unknownId => simp at hok
+    | checkFail => simp at hok
+    | dup => simp at hok
+  · rw [hr]
+    refine ⟨by simp [upd_same, hd], ?_⟩
+    intro d hd'; rw [hd] at hd'; exact (Option.some.inj hd').symm
+  · rw [hr]
+    refine ⟨by simp [upd_same, dget_cons], ?_⟩
+    intro d hd'; rw [hn] at hd'; cases hd'
+
+
 /-! ## The driver's composite `broadcast` is a run of primitive events -/
 
 theorem run_append (w : World Digest) (xs ys : List (Ev Sig)) :
